@@ -278,7 +278,8 @@ pub fn gen_spec(rng: &mut Rng, p: &Profile) -> Spec {
     let all_names: Vec<String> = names.clone();
     // ---- operations
     let nops = 1 + rng.below(p.max_ops);
-    let verbs = ["get", "post", "put", "delete", "patch"];
+    // the five common verbs most of the time; head / options / trace are operations like any other
+    let verbs: Vec<&str> = if p.hard_names { vec!["get", "post", "put", "delete", "patch", "get", "post", "put", "delete", "patch", "head", "options", "trace"] } else { vec!["get", "post", "put", "delete", "patch"] };
     let resources = ["pets", "users", "orders", "items", "teams", "tags", "accounts", "v2/things"];
     let mut op_taken: Vec<String> = vec![];
     let mut path_taken: Vec<String> = vec![];
@@ -301,6 +302,9 @@ pub fn gen_spec(rng: &mut Rng, p: &Profile) -> Spec {
                 _ => "/user/{user_id}".to_string(),
             };
             wild_path = true;
+        }
+        if p.hard_names && rng.chance(1, 10) {
+            path.push('/');     // Django-style route: the trailing slash is part of the template
         }
         let verb = verbs[rng.below(verbs.len())];
         let key = format!("{} {}", verb, erase_placeholders(&path));
@@ -382,7 +386,8 @@ pub fn gen_spec(rng: &mut Rng, p: &Profile) -> Spec {
             }
         }
         // responses
-        let status = [200u16, 201, 202, 204][rng.below(4)];
+        // any of the success codes libninja looks for; a redirect-only operation (302) is one of them
+        let status = [200u16, 201, 202, 204, 200, 201, 202, 204, 302][rng.below(9)];
         let schema = match rng.below(6) {
             0 => None,
             1 | 2 if !obj_names.is_empty() => Some(SRef::Ref(obj_names[rng.below(obj_names.len())].clone())),
@@ -393,6 +398,19 @@ pub fn gen_spec(rng: &mut Rng, p: &Profile) -> Spec {
         let mut responses = vec![(status, schema)];
         if rng.chance(1, 3) {
             responses.push((404, None));
+        }
+        if p.hard_names && rng.chance(1, 6) {
+            // a second success response, declared before or after the first: the result is the one with the first
+            // status in libninja's order 200, 201, 202, 204, 302, whatever the document order
+            let other = [200u16, 201, 202, 204, 302][rng.below(5)];
+            if other != status {
+                let extra = (other, if rng.chance(1, 2) { Some(inl(s_string())) } else { None });
+                if rng.chance(1, 2) {
+                    responses.insert(0, extra);
+                } else {
+                    responses.push(extra);
+                }
+            }
         }
         let summary = doc(rng, p);
         let description = match (&summary, rng.below(4)) {
@@ -477,7 +495,17 @@ pub fn gen_spec(rng: &mut Rng, p: &Profile) -> Spec {
     }
     if p.wild && rng.chance(1, 3) {
         spec.servers.clear();
-        match rng.below(3) {
+        match rng.below(5) {
+            3 => {
+                // several servers of which exactly one carries a recognised keyword
+                spec.servers.push(Server { url: "https://api.petstore.example".into(), description: Some("Production".into()) });
+                spec.servers.push(Server { url: "https://staging.petstore.example".into(), description: Some("Staging".into()) });
+            }
+            4 => {
+                spec.servers.push(Server { url: "https://local.example".into(), description: None });
+                spec.servers.push(Server { url: "https://staging.example".into(), description: Some("Staging".into()) });
+                spec.servers.push(Server { url: "https://sandbox.example".into(), description: Some("Sandbox".into()) });
+            }
             0 => {
                 spec.servers.push(Server { url: "https://a.example.com".into(), description: Some("Main".into()) });
                 spec.servers.push(Server { url: "https://b.example.com".into(), description: None });
